@@ -262,5 +262,8 @@ def check(ctx):
     fcf = repo.func("GeckoSpa._final_connect")
     ok = "self.struct.build_accessors" in ast.unparse(fcf.node) and "self._is_connected = True" in ast.unparse(fcf.node)
     ctx.ob("R7", "GeckoSpa._final_connect::completes", ok, "_final_connect does not build the accessors and mark the spa connected", fcf.loc)
+    ctx.rule("R9", "handshake's status-block step: the blocking structure installs a block only when the final segment arrived in sequence, and restarts the transfer otherwise (C01's obligations on GeckoStructure: install guard, append guard, fresh assembly per resend, counted resends)")
+    from . import c01 as _c01
+    _c01.sync_assembly(ctx.borrowed("R9", "C01"), repo)
     ctx.note("NOT decided: pacing in seconds, real thread schedules, 'exactly N retransmissions' as counted events, the handshake under loss patterns.")
     ctx.assume("threading.Lock gives mutual exclusion; list.append/pop(0) are FIFO")
